@@ -41,6 +41,13 @@ impl From<Evt> for Value {
     }
 }
 
+/// Needed by `SpecificSingleObjectReader::read_from_value`.
+impl From<Value> for Evt {
+    fn from(v: Value) -> Evt {
+        apache_avro::from_value::<Evt>(&v).expect("a value read under Evt's own schema converts to Evt")
+    }
+}
+
 const EVT_SCHEMA: &str = r#"{"type":"record","name":"Evt","fields":[{"name":"id","type":"long"},{"name":"name","type":"string"},{"name":"tags","type":{"type":"array","items":"string"}},{"name":"note","type":["null","string"]}]}"#;
 
 fn has_logical(j: &J) -> bool {
@@ -234,6 +241,18 @@ fn run_history(cx: &BCtx, hist: &[Op], transitions: &mut u64) -> Result<(), Stri
                 let t = cx.treader.read(&mut cur).map_err(|err| step(format!("typed reader: {err}")))?;
                 if t != e || !cur.is_empty() {
                     return Err(step("typed reader returned a different value".into()));
+                }
+                // the other two reading entry points: typed value through the generic decoder, and the
+                // generic reader's deserializer
+                let mut cur: &[u8] = &out;
+                let t2 = cx.treader.read_from_value(&mut cur).map_err(|err| step(format!("typed reader (read_from_value): {err}")))?;
+                if t2 != e || !cur.is_empty() {
+                    return Err(step("typed reader (read_from_value) returned a different value".into()));
+                }
+                let mut cur: &[u8] = &out;
+                let t3: Evt = cx.greader.read_deser(&mut cur).map_err(|err| step(format!("generic reader (read_deser): {err}")))?;
+                if t3 != e || !cur.is_empty() {
+                    return Err(step("generic reader (read_deser) returned a different value".into()));
                 }
             }
             Op::FailValidate => {
